@@ -47,3 +47,26 @@ func genC01(t *rapid.T) Case {
 }
 
 func TestC01(t *testing.T) { ev.Check(t, "C01", "seq", genC01, Exec) }
+
+// genC12Files: histories made of groups of files that are open at the same time (2-6, more than the
+// database has workers), written alternately and closed in either order, inside and outside
+// transactions: every Close returns and each key holds the concatenation of its writes.
+func genC12Files(t *rapid.T) Case {
+	c := Case{Prof: "c01", Roots: rapid.IntRange(1, 2).Draw(t, "roots"), MaxDir: 100, Keys: []string{"a", "b"}}
+	c.Workers = rapid.SampledFrom([]int{0, 0, 1, 2, 3}).Draw(t, "workers")
+	for n := rapid.IntRange(1, 4).Draw(t, "groups"); n > 0; n-- {
+		if rapid.IntRange(0, 2).Draw(t, "inTx") == 0 {
+			c.Ops = append(c.Ops, Op{K: "begin", Lvl: rapid.IntRange(0, 3).Draw(t, "lvl")},
+				Op{K: "files", Last: true, N: rapid.IntRange(2, 6).Draw(t, "nfiles"), Len: rapid.IntRange(0, 4000).Draw(t, "flen")},
+				Op{K: rapid.SampledFrom([]string{"commit", "rollback"}).Draw(t, "end"), Last: true})
+		} else {
+			c.Ops = append(c.Ops, Op{K: "files", N: rapid.IntRange(2, 6).Draw(t, "nfiles"), Len: rapid.IntRange(0, 4000).Draw(t, "flen")})
+		}
+		if rapid.Bool().Draw(t, "setBetween") {
+			c.Ops = append(c.Ops, Op{K: "set", Key: rapid.IntRange(0, 1).Draw(t, "key"), Len: rapid.IntRange(0, 3000).Draw(t, "len"), Via: "create"})
+		}
+	}
+	return c
+}
+
+func TestC12Files(t *testing.T) { ev.Check(t, "C12", "files", genC12Files, Exec) }
